@@ -8,6 +8,7 @@ trailing empty members/EOF marker), every history (any length) of Read(n)/ReadBy
 go to a block start plus an offset up to the block's length.
 -/
 import Hts.Lemmas.ReaderProps
+import Hts.Lemmas.ReaderLTS
 namespace Hts.Props.C02
 open Hts.Model.Bgzf Hts.Spec.Flat
 
@@ -100,6 +101,77 @@ theorem seek_begin_replays (F : File) (hwf : WF F) (r0 : Reader) (h0 : Reader.ne
     · rw [hb2, hb]
     · rw [he2, he]
   · rw [hs2.last]
+
+/-! ### The read-ahead protocol (rd > 1), partial
+
+`Hts.Model.ReadAhead` is the worker/consumer protocol of the cache-free reader as a transition system.  The
+full statements (all paths, including `Seek`'s redirects through `control`) are kept visible below as
+propositions; what is proved is the part for paths without `Seek` steps ("between redirects"): the consumer
+never sees an unexpected block, blocks are delivered in file order, decompressors are conserved, and a
+consumer waiting in `nextBlock` never dead-locks.  For the rest the schedule clause of C02 is carried by
+the correspondence check (rd 0/2/4, GOMAXPROCS 1/4/16, delayed underlying reader). -/
+
+open Hts.Model.ReadAhead in
+/-- Full statement (not proved): the `panic("bgzf: unexpected block")` branch is unreachable on every path. -/
+def readahead_no_unexpected_block_full : Prop :=
+  ∀ (chain : Chain) (rd : Nat), 2 ≤ rd → ∀ s, Reach chain rd (fun _ => true) s → s.cons ≠ .panicked
+
+open Hts.Model.ReadAhead in
+/-- Full statement (not proved): on every path, whenever the consumer is inside a call some thread can move. -/
+def readahead_deadlock_free_full : Prop :=
+  ∀ (chain : Chain) (rd : Nat), 2 ≤ rd → ∀ s, Reach chain rd (fun _ => true) s → s.cons ≠ .idle →
+    s.cons ≠ .panicked → ∃ l t, Step chain s l t
+
+open Hts.Model.ReadAhead in
+/-- Between redirects the consumer never reaches `panic("bgzf: unexpected block")`, for every file, every
+number of decompressors and every interleaving of worker and consumer. -/
+theorem readahead_no_unexpected_block_partial (chain : Chain) (rd : Nat) (s : St)
+    (h : Reach chain rd noSeek s) : s.cons ≠ .panicked := by
+  have hi := inv_reach h
+  rcases hi.cons with hc | ⟨i, hc, _, _⟩ <;> rw [hc] <;> simp
+
+open Hts.Model.ReadAhead in
+/-- Between redirects every block the consumer receives from `working` is the member of the file that
+starts at the base it expects (in-order delivery; no block is skipped, repeated or out of place). -/
+theorem readahead_in_order_partial (chain : Chain) (rd : Nat) (s t : St) (h : Reach chain rd noSeek s)
+    (hs : Step chain s .cRecv t) :
+    ∃ b rest, s.working = b :: rest ∧ s.cur.next = some b.base ∧ b.next = chain b.base ∧
+      t.cur = b ∧ t.cons = .idle ∧ t.working = rest := by
+  have hi := inv_reach h
+  cases hs with
+  | cRecv i b rest h1 h2 h3 =>
+    have hb : s.cur.next = some b.base ∧ b.next = chain b.base ∧
+        IsChain chain b.next (rest ++ s.worker.pending) (wnext s) := by
+      simpa [pipeline, h2, IsChain] using hi.chain_
+    refine ⟨b, rest, h2, hb.1, hb.2.1, ?_⟩
+    simp [hb.1]
+
+open Hts.Model.ReadAhead in
+/-- Decompressors are conserved: idle + carrying a block + held by a thread = rd. -/
+theorem readahead_conservation_partial (chain : Chain) (rd : Nat) (s : St) (h : Reach chain rd noSeek s) :
+    s.waiting + s.working.length + held s = rd ∧ s.working.length ≤ rd :=
+  ⟨(inv_reach h).count, by have := (inv_reach h).count; omega⟩
+
+open Hts.Model.ReadAhead in
+/-- Between redirects a consumer waiting in `nextBlock` is never stuck: the block it waits for is in
+`working`, or the worker can take a decompressor, read, or send. -/
+theorem readahead_deadlock_free_partial (chain : Chain) (rd : Nat) (hrd : 1 ≤ rd) (s : St)
+    (h : Reach chain rd noSeek s) (i : Nat) (hc : s.cons = .scan i) :
+    ∃ l t, noSeek l = true ∧ Step chain s l t :=
+  scan_can_step hrd (inv_reach h) i hc
+
+open Hts.Model.ReadAhead in
+/-- Non-vacuity: a three-member file, rd = 2; the worker reads ahead and the consumer receives the block. -/
+example : ∃ s, Reach (fun b => if b < 90 then some (b + 30) else none) 2 noSeek s ∧
+    s.cur = ⟨30, some 60⟩ ∧ s.cons = .idle := by
+  let chain : Chain := fun b => if b < 90 then some (b + 30) else none
+  have r0 : Reach chain 2 noSeek (init chain 2) := .init
+  have r1 := Reach.step _ _ _ r0 (rfl : noSeek .wTake = true) (Step.wTake _ _ rfl (by decide))
+  have r2 := Reach.step _ _ _ r1 (rfl : noSeek .wRead = true) (Step.wRead _ 30 rfl rfl)
+  have r3 := Reach.step _ _ _ r2 (rfl : noSeek .wPush = true) (Step.wPush _ _ rfl (by decide))
+  have r4 := Reach.step _ _ _ r3 (rfl : noSeek .cNext = true) (Step.cNext _ 30 rfl rfl)
+  have r5 := Reach.step _ _ _ r4 (rfl : noSeek .cRecv = true) (Step.cRecv _ 0 ⟨30, some 60⟩ [] rfl rfl (by decide))
+  exact ⟨_, r5, rfl, rfl⟩
 
 /-! ### Non-vacuity: the hypotheses are satisfiable by a file with empty members in the middle and at the
 end and by a history that seeks, crosses block ends, hits the end of the data and toggles Blocked mode. -/
